@@ -134,6 +134,10 @@ var (
 	rPanicAPI = Rule{"OWN-PANICAPI", rules.OwnPanicAPI(rules.ScopeAlloc, 5)}
 	rIdxPair  = Rule{"TAB-INDEXPAIR", rules.TabIndexPair}
 	rBudget   = Rule{"TAB-BUDGET", rules.TabBudget}
+	rUSub     = Rule{"NUM-USUB", rules.NumUSub(rules.ScopeReader, rules.USubResiduals, 10)}
+	rTextIVM  = Rule{"ORD-TEXTIVM", rules.OrdTextIVM}
+	rNibNext  = Rule{"TAB-NIBBLE-NEXT", rules.TabNibbleNext}
+	rDecNZ    = Rule{"ORD-DECNEGZERO", rules.OrdDecNegZero}
 	rFixedLST = Rule{"OWN-FIXEDLST", rules.OwnFixedLST}
 	rReflSet  = Rule{"TAB-REFLECTSET", rules.TabReflectSet}
 	rBounds   = Rule{"TAB-BOUNDS", rules.TabBounds}
@@ -177,7 +181,7 @@ var registry = map[string]*Property{
 		},
 	},
 	"C03": {
-		Decided:    "The binary reader's type-code table, the value type stored for each type code and the accepted float sizes equal the Ion 1.0 tables (TAB-TYPECODE, reader obligations); validateAnnotatedValue special-cases exactly the type codes whose low nibble bitstream.Next does not read as a body length, so a wrapper around true/false or a sorted struct is measured correctly (TAB-NIBBLE); each field is decoded with the primitive Ion 1.0 prescribes (TAB-CODEC, reader obligations); the VarUInt/VarInt accumulators cannot drop high bits and every narrowing in the bitstream and binary reader is in range (NUM-SHIFT, NUM-NARROW, bitstream obligations); bytes handed to the caller never alias the read buffer (OWN-INPUT, Peek obligations); every value decoder consumes exactly the declared length of the current value (TAB-BUDGET).",
+		Decided:    "The binary reader's type-code table, the value type stored for each type code and the accepted float sizes equal the Ion 1.0 tables (TAB-TYPECODE, reader obligations); validateAnnotatedValue special-cases exactly the type codes whose low nibble bitstream.Next does not read as a body length, so a wrapper around true/false or a sorted struct is measured correctly (TAB-NIBBLE); each field is decoded with the primitive Ion 1.0 prescribes (TAB-CODEC, reader obligations); the VarUInt/VarInt accumulators cannot drop high bits and every narrowing in the bitstream and binary reader is in range (NUM-SHIFT, NUM-NARROW, bitstream obligations); bytes handed to the caller never alias the read buffer (OWN-INPUT, Peek obligations); every value decoder consumes exactly the declared length of the current value (TAB-BUDGET); once Next has replaced the tag's nibble by a decoded length it no longer reads 14 and 15 as 'length follows' and 'null' (TAB-NIBBLE-NEXT); a decimal's negative-zero flag comes from the coefficient's sign bit (ORD-DECNEGZERO); no unsigned length or position subtraction in the bitstream can wrap below zero (NUM-USUB).",
 		Necessary:  "A type code decoded as another type, a refused float size, or a wrapper length check that misreads a bool's nibble (finding F13, fixed) rejects or misdecodes a valid encoding.",
 		NotDecided: "VarUInt/VarInt arithmetic, padding, NOP handling, struct ordering, lengths (behavioural); TAB-BUDGET of the design was not built",
 		Technique:  tabTech + "; " + "codec-family pairing (length function vs append function per operand, by SSA path) and codec tables compared with Ion 1.0" + "; " + numTech + "; escape walk of bufio.Reader.Peek results",
@@ -185,7 +189,7 @@ var registry = map[string]*Property{
 		Rules: []Rule{
 			only(rTypecode, 30, whatLacks("binaryNulls[")), rNibble,
 			only(rCodec, 8, whatHas("decode")), only(rShift, 5, posHas("ion/bitstream.go")), only(rNarrow, 15, posHas("ion/bitstream.go", "ion/binaryreader.go")),
-			only(rOwnInput, 2, whatHas("slice returned by Peek")), rBudget,
+			only(rOwnInput, 2, whatHas("slice returned by Peek")), rBudget, rNibNext, rDecNZ, only(rUSub, 8, posHas("ion/bitstream.go")),
 		},
 	},
 	"C04": {
@@ -208,7 +212,7 @@ var registry = map[string]*Property{
 		Rules:      []Rule{rTextAuth, rSid0, rTokCache},
 	},
 	"C06": {
-		Decided:    "In package ion: a pointer obtained from an accessor that returns (nil, nil) for a typed null is dereferenced only where it is known non-nil, with preconditions inferred through helper calls (NIL-ACC); such a pointer is not passed to a callee that dereferences it unguarded (NIL-ARG); the pointer fields documented nil-if-unknown (SymbolToken.Text/Source, ImportSource) are dereferenced only under a nil test of the same access path (NIL-FIELD); every panicking pop on the reader-side stacks is dominated by a non-emptiness fact (ORD-POPGUARD, reader obligations); on the input side every allocation with a non-constant size is sized by the length of data already in memory or by a value bounded by 2^20 — a declared length never sizes an allocation before the bytes exist (NUM-ALLOC, 2 residual rows); every index into a slice, string or array on the input side (240 sites) is inside the bounds by the loop that produces it, by a dominating comparison with the length of the same object, by the callee's length contract (Peek(n), readN(n)) or by what every call site establishes (NUM-INDEX, 7 residual rows); the same for the bounds of slice expressions in the reader, symbol-table, unmarshal and timestamp files (NUM-SLICE, 3 residual rows); every call on the input side to a module function that panics when an integer expression over its parameters leaves a range (Decimal.ShiftL/upscale ...) establishes that range at the call (OWN-PANICAPI).",
+		Decided:    "In package ion: a pointer obtained from an accessor that returns (nil, nil) for a typed null is dereferenced only where it is known non-nil, with preconditions inferred through helper calls (NIL-ACC); such a pointer is not passed to a callee that dereferences it unguarded (NIL-ARG); the pointer fields documented nil-if-unknown (SymbolToken.Text/Source, ImportSource) are dereferenced only under a nil test of the same access path (NIL-FIELD); every panicking pop on the reader-side stacks is dominated by a non-emptiness fact (ORD-POPGUARD, reader obligations); on the input side every allocation with a non-constant size is sized by the length of data already in memory or by a value bounded by 2^20 — a declared length never sizes an allocation before the bytes exist (NUM-ALLOC, 2 residual rows); every index into a slice, string or array on the input side (240 sites) is inside the bounds by the loop that produces it, by a dominating comparison with the length of the same object, by the callee's length contract (Peek(n), readN(n)) or by what every call site establishes (NUM-INDEX, 7 residual rows); the same for the bounds of slice expressions in the reader, symbol-table, unmarshal and timestamp files (NUM-SLICE, 3 residual rows); every call on the input side to a module function that panics when an integer expression over its parameters leaves a range (Decimal.ShiftL/upscale ...) establishes that range at the call (OWN-PANICAPI); no subtraction of unsigned lengths, positions or budgets in the reader files can wrap below zero — the operands are ordered by their intervals, by a dominating comparison, or by the contract that a budgeted reader never consumes more than its budget (NUM-USUB, 2 residual rows).",
 		Necessary:  "An unguarded dereference of a typed null's nil accessor result, or an unguarded pop, is a panic on an input that exists (null.int, $0, imports:null.symbol — findings F7, F8, F9, all fixed).",
 		NotDecided: "slice bounds inside the text formatters (decimal.go, textutils.go), explicit internal-consistency panics (bitstream.remaining/StepOut: pos <= end is arithmetic), loop termination, recursion depth, memory retained by deeply nested or very long valid input",
 		Technique:  "SSA must-dataflow of nil facts keyed by canonical access path, with inferred callee preconditions; " + numTech + " (allocation sizes, index and slice bounds, callee panic ranges evaluated at each call site)",
@@ -216,7 +220,7 @@ var registry = map[string]*Property{
 		Rules: []Rule{
 			{"NIL-ACC", rules.NilAcc(rules.ScopeIon, 20)}, {"NIL-ARG", rules.NilArg(rules.ScopeIon, 0)}, {"NIL-FIELD", rules.NilField(rules.ScopeIon, 8)},
 			only(rOrdPopGuard, 2, funcHas("Reader", "bitstream", "tokenizer")),
-			rAlloc, rIndex, rSlice, rPanicAPI,
+			rAlloc, rIndex, rSlice, rPanicAPI, rUSub,
 		},
 	},
 	"C07": {
@@ -247,12 +251,12 @@ var registry = map[string]*Property{
 		Rules:      []Rule{rOrdFirstWins, rOrdSidBound, rImpFirst, rBuild, rIdxPair},
 	},
 	"C10": {
-		Decided:    "Every successful path of binaryReader.readBVM resets the context to the system table (ORD-BVMRESET); once a top-level struct is recognised as $ion_symbol_table every exit reports 'not a user value' or an error (ORD-LSTHIDE); the symbol table reader dereferences accessor results only under the non-null precondition, so typed nulls in imports/name/version/max_id/symbols do not crash it (NIL-ACC scoped to readlocalsymboltable.go); every Reader field that can hold a resolved token is reset per value or after every assignment of the current table, so no token outlives the table it was resolved in (OWN-TOKCACHE); an import's declared max_id counts as declared from 0 upwards — only a negative or absent one falls back to the catalog (TAB-BOUNDS, readImport).",
+		Decided:    "Every successful path of binaryReader.readBVM resets the context to the system table (ORD-BVMRESET); the text reader recognises an unquoted top-level $ion_1_0, resets the context on that edge and does not surface it as a value (ORD-TEXTIVM); once a top-level struct is recognised as $ion_symbol_table every exit reports 'not a user value' or an error (ORD-LSTHIDE); the symbol table reader dereferences accessor results only under the non-null precondition, so typed nulls in imports/name/version/max_id/symbols do not crash it (NIL-ACC scoped to readlocalsymboltable.go); every Reader field that can hold a resolved token is reset per value or after every assignment of the current table, so no token outlives the table it was resolved in (OWN-TOKCACHE); an import's declared max_id counts as declared from 0 upwards — only a negative or absent one falls back to the catalog (TAB-BOUNDS, readImport).",
 		Necessary:  "A version marker that keeps the old table, a table struct surfacing as a user value, or a panic on a typed null in a table slot (F8, fixed) each break resolution against the table in force.",
 		NotDecided: "append/replace semantics, catalog fallback order, max_id trimming/padding",
 		Technique:  "SSA must-pass-through and nil-fact dataflow; forward path search from every assignment of the current table to an exit (token-holding fields); boundary extraction",
 		DesignRef:  "DESIGN.md §3.2, §3.5, §4 C10",
-		Rules:      []Rule{rOrdBVMReset, rOrdLstHide, {"NIL-ACC", rules.NilAcc(rules.ScopeLST, 4)}, rTokCache, only(rBounds, 1, funcHas("readImport"))},
+		Rules:      []Rule{rOrdBVMReset, rOrdLstHide, {"NIL-ACC", rules.NilAcc(rules.ScopeLST, 4)}, rTokCache, only(rBounds, 1, funcHas("readImport")), rTextIVM},
 	},
 	"C11": {
 		Decided:    "The field names and the annotation the symbol table writer emits are exactly those the symbol table reader dispatches on, max_id included (TAB-LSTFIELDS); the fixed/imported table is written before the first value (ORD-LSTFIRST); the builder consults imports and existing entries before defining a local symbol (ORD-FIRSTWINS); token text reaches the table lookup as it is — never through the '$n' interpretation, which would bypass a fixed table's 'not defined' error and emit an arbitrary ID (OWN-TEXTAUTH, binary writer obligations); with a fixed table, text it does not define ends in a non-nil error (OWN-FIXEDLST).",
@@ -362,6 +366,10 @@ var devRules = map[string]Rule{
 	"OWN-INPUT":       {"OWN-INPUT", rules.OwnInput},
 	"TAB-DATEVAL":     {"TAB-DATEVAL", rules.TabDateVal},
 	"ORD-STEPIN":      {"ORD-STEPIN", rules.OrdStepIn},
+	"TAB-NIBBLE-NEXT": {"TAB-NIBBLE-NEXT", rules.TabNibbleNext},
+	"ORD-DECNEGZERO":  {"ORD-DECNEGZERO", rules.OrdDecNegZero},
+	"ORD-TEXTIVM":     {"ORD-TEXTIVM", rules.OrdTextIVM},
+	"NUM-USUB":        {"NUM-USUB", rules.NumUSub(rules.ScopeReader, rules.USubResiduals, 0)},
 	"TAB-BUDGET":      {"TAB-BUDGET", rules.TabBudget},
 	"OWN-FIXEDLST":    {"OWN-FIXEDLST", rules.OwnFixedLST},
 	"TAB-REFLECTSET":  {"TAB-REFLECTSET", rules.TabReflectSet},
